@@ -16,11 +16,9 @@ Model ↔ Rust (Model/Descriptor.lean, Model/Keys.lean):
 Specification: Spec/Outputs.lean (byte templates), Spec/Bip32.lean, Spec/KeyExpr.lean
   (`keyAt`: the key a key expression denotes at index i; `selectPath`: BIP389 alternative j).
 
-Result that is NOT a theorem because the code does not have the property (see the `_full`
-definition and its refutation): a sorted multisig whose list contains two keys with the SAME
-BIP67 sort key but different pushes (one key listed compressed and uncompressed) depends on the
-listing order.  (`into_single_descriptors` used to truncate silently when the first multipath
-key had fewer alternatives than a later one; fixed in /repo, T4 is now at full strength.)
+Both former findings are fixed in /repo and the theorems are at full strength: sortedmulti
+orders the compressed and the uncompressed form of one point deterministically (2f8a2bb0; T2
+holds for every key list), `into_single_descriptors` rejects every arity mismatch (34f096f6; T4).
 -/
 import MsVerif.Lemmas.SortKeys
 import MsVerif.Lemmas.OutputsSer
@@ -159,27 +157,47 @@ example : (Desc.sh (.wpkh 7)).unsignedScriptSig ⟨⟨fun _ => List.replicate 32
 
 /-! ## T2 — sorted multisig does not depend on the listing order -/
 
-/-- T2: the script of `sortedmulti(k, ks)` is invariant under every permutation of `ks`,
-provided keys with EQUAL BIP67 sort keys are pushed identically (in particular when the sort
-keys are pairwise distinct, or when a key is simply repeated) -/
-theorem sortedmulti_perm_invariant (env : KeyEnv) (ctx : Ctx) (k : Nat) (ks ks' : List Key)
-    (hp : ks.Perm ks')
-    (htie : ∀ x ∈ ks, ∀ y ∈ ks, env.sortKey x = env.sortKey y → env.ser x = env.ser y) :
+/-- T2, full strength: in every key environment whose sort key determines the pushed
+serialisation (`SortKeyFaithful`; the real ECDSA key `(compressed encoding, !compressed)` and the
+x-only key do, see `sort_key_of_the_code_is_faithful`) the script of `sortedmulti(k, ks)` is
+invariant under EVERY permutation of EVERY key list `ks` — repeated keys and the same point in
+compressed and uncompressed form included -/
+theorem sortedmulti_perm_invariant (env : KeyEnv) (hf : SortKeyFaithful env) (ctx : Ctx) (k : Nat)
+    (ks ks' : List Key) (hp : ks.Perm ks') :
     encode env ctx (.sortedMulti k ks) = encode env ctx (.sortedMulti k ks') := by
   simp only [encode]
   have h := sortKeys_map_perm_invariant env (fun pk => Op.push (env.ser pk)) ks ks' hp
-    (fun x hx y hy hxy => by simp only [htie x hx y hy hxy])
+    (fun x _ y _ hxy => by simp only [hf x y hxy])
   rw [h, hp.length_eq]
 
 /-- T2 for tapscript `sortedmulti_a` -/
-theorem sortedmulti_a_perm_invariant (env : KeyEnv) (ctx : Ctx) (k : Nat) (ks ks' : List Key)
-    (hp : ks.Perm ks')
-    (htie : ∀ x ∈ ks, ∀ y ∈ ks, env.sortKey x = env.sortKey y → env.ser x = env.ser y) :
+theorem sortedmulti_a_perm_invariant (env : KeyEnv) (hf : SortKeyFaithful env) (ctx : Ctx) (k : Nat)
+    (ks ks' : List Key) (hp : ks.Perm ks') :
     encode env ctx (.sortedMultiA k ks) = encode env ctx (.sortedMultiA k ks') := by
   simp only [encode, encodeMultiA_eq]
-  rw [sortKeys_map_perm_invariant env env.ser ks ks' hp htie]
+  rw [sortKeys_map_perm_invariant env env.ser ks ks' hp (fun x _ y _ hxy => hf x y hxy)]
 
-/-- T2: the keys are pushed in BIP67 order: the script is that of a plain `multi` over the
+/-- the sort keys of the code satisfy the hypothesis of T2: for ECDSA keys (every key a curve
+point pushed compressed or uncompressed, sort key = `bip67_sort_key` = compressed encoding then
+`!compressed`; the compressed encoding identifies the point), and for x-only keys (sort key = the
+pushed 32 bytes) -/
+theorem sort_key_of_the_code_is_faithful (env : KeyEnv) :
+    (∀ (point : Key → Nat) (compressed : Key → Bool) (serC serU : Nat → Bytes),
+      (∀ p q, serC p = serC q → p = q) →
+      (∀ k, env.ser k = if compressed k then serC (point k) else serU (point k)) →
+      (∀ k, env.sortKey k = bip67SortKey (serC (point k)) (compressed k)) → SortKeyFaithful env) ∧
+    ((∀ k, env.sortKey k = env.ser k) → SortKeyFaithful env) :=
+  ⟨fun point compressed serC serU hinj hser hsort =>
+    faithful_of_bip67 env point compressed serC serU hinj hser hsort, faithful_of_xonly env⟩
+
+/-- the byte string standing for `bip67_sort_key`'s tuple orders like the tuple: by the
+compressed encoding, and compressed before uncompressed on a tie -/
+theorem bip67_sort_key_order (a b : Bytes) (ca cb : Bool) (h : a.length = b.length) :
+    bytesLe (bip67SortKey a ca) (bip67SortKey b cb) = true ↔
+      (a ≠ b ∧ bytesLe a b = true) ∨ (a = b ∧ (ca = true ∨ cb = false)) :=
+  bip67SortKey_le_iff a b ca cb h
+
+/-- T2: the keys are pushed in sort-key order: the script is that of a plain `multi` over the
 sorted list, which is sorted (ascending sort keys) and a permutation of the input -/
 theorem sortedmulti_is_multi_of_sorted (env : KeyEnv) (ctx : Ctx) (k : Nat) (ks : List Key) :
     encode env ctx (.sortedMulti k ks) = encode env ctx (.multi k (sortKeys env ks)) ∧
@@ -193,53 +211,57 @@ theorem sortedmulti_is_multi_of_sorted (env : KeyEnv) (ctx : Ctx) (k : Nat) (ks 
 /-- T2: a sorted multisig ANYWHERE inside a miniscript (`sortedmulti` is a fragment in this
 version: `wsh(and_v(v:sortedmulti(..),pk(K)))` is accepted): re-listing its keys in another
 order at every occurrence leaves the whole script unchanged -/
-theorem sortedmulti_anywhere_perm_invariant (env : KeyEnv) (ctx : Ctx) (m : Ms) (k : Nat)
-    (ks ks' : List Key) (hp : ks.Perm ks')
-    (htie : ∀ x ∈ ks, ∀ y ∈ ks, env.sortKey x = env.sortKey y → env.ser x = env.ser y) :
+theorem sortedmulti_anywhere_perm_invariant (env : KeyEnv) (hf : SortKeyFaithful env) (ctx : Ctx)
+    (m : Ms) (k : Nat) (ks ks' : List Key) (hp : ks.Perm ks') :
     encode env ctx (replaceMs (.sortedMulti k ks) (.sortedMulti k ks') m) = encode env ctx m ∧
     encode env ctx (replaceMs (.sortedMultiA k ks) (.sortedMultiA k ks') m) = encode env ctx m :=
-  ⟨encode_replaceMs env ctx _ _ (sortedmulti_perm_invariant env ctx k ks ks' hp htie) m,
-   encode_replaceMs env ctx _ _ (sortedmulti_a_perm_invariant env ctx k ks ks' hp htie) m⟩
+  ⟨encode_replaceMs env ctx _ _ (sortedmulti_perm_invariant env hf ctx k ks ks' hp) m,
+   encode_replaceMs env ctx _ _ (sortedmulti_a_perm_invariant env hf ctx k ks ks' hp) m⟩
 
 example : replaceMs (.sortedMulti 1 [1, 2]) (.sortedMulti 1 [2, 1])
     (.andV (.verify (.sortedMulti 1 [1, 2])) (.check (.pkK 3))) =
     .andV (.verify (.sortedMulti 1 [2, 1])) (.check (.pkK 3)) := by decide
 
-/-- the full-strength statement without the tie hypothesis … -/
-def sortedmulti_perm_invariant_full : Prop :=
-  ∀ (env : KeyEnv) (ctx : Ctx) (k : Nat) (ks ks' : List Key), ks.Perm ks' →
-    encode env ctx (.sortedMulti k ks) = encode env ctx (.sortedMulti k ks')
+/-- regression (former finding, fixed in /repo 2f8a2bb0): atoms 5 and 105 are ONE point listed
+compressed and uncompressed (`sh(sortedmulti(1,A,A_uncompressed))`).  With the sort key of the
+code — compressed encoding `[9]` for both, then the flag — both listing orders give the same
+script, compressed key first. -/
+example :
+    let env : KeyEnv := ⟨fun k => [UInt8.ofNat k], fun k => bip67SortKey [9] (decide (k < 100)),
+      fun _ => [], fun _ => [], fun _ _ => []⟩
+    encode env .legacy (.sortedMulti 1 [5, 105]) = encode env .legacy (.sortedMulti 1 [105, 5]) ∧
+    encode env .legacy (.sortedMulti 1 [105, 5]) =
+      [.small 1, .push [5], .push [105], .small 2, .code .checkmultisig] := by decide
 
-/-- … is FALSE for the code as it is: two list entries with the same BIP67 sort key
-(`pk.to_public_key().inner.serialize()`, always the compressed form) but different pushes (the
-same key once compressed, once uncompressed, possible under `sh`) keep their listing order,
-because the sort is stable and compares the compressed form only. -/
-theorem sortedmulti_tie_order_dependent : ¬ sortedmulti_perm_invariant_full := by
+/-- why the flag is part of the sort key: with the OLD key (compressed encoding only) the same two
+atoms compare equal, the stable sort keeps the listing order and the script depends on it; such
+an environment is not `SortKeyFaithful` -/
+theorem sort_key_without_flag_is_order_dependent :
+    ∃ env : KeyEnv, ¬ SortKeyFaithful env ∧
+      encode env .legacy (.sortedMulti 1 [5, 105]) ≠ encode env .legacy (.sortedMulti 1 [105, 5]) := by
+  refine ⟨⟨fun k => [UInt8.ofNat k], fun _ => [9], fun _ => [], fun _ => [], fun _ _ => []⟩, ?_, by decide⟩
   intro h
-  have := h ⟨fun k => [UInt8.ofNat k], fun _ => [], fun _ => [], fun _ => [], fun _ _ => []⟩
-    .legacy 1 [5, 105] [105, 5] (List.Perm.swap _ _ _)
+  have := h 5 105 rfl
   revert this
   decide
 
 /-- T2 at descriptor level: every wrapper of a sorted multisig has an order-independent
 scriptPubKey (`wsh`, `sh`, `sh(wsh)`), for all hash functions -/
-theorem sortedmulti_spk_perm_invariant (P : Params) (k : Nat) (ks ks' : List Key)
-    (hp : ks.Perm ks')
-    (htie : ∀ x ∈ ks, ∀ y ∈ ks, P.env.sortKey x = P.env.sortKey y → P.env.ser x = P.env.ser y) :
+theorem sortedmulti_spk_perm_invariant (P : Params) (hf : SortKeyFaithful P.env) (k : Nat)
+    (ks ks' : List Key) (hp : ks.Perm ks') :
     (Desc.wsh (.sortedMulti k ks)).scriptPubkey P = (Desc.wsh (.sortedMulti k ks')).scriptPubkey P ∧
     (Desc.sh (.ms (.sortedMulti k ks))).scriptPubkey P = (Desc.sh (.ms (.sortedMulti k ks'))).scriptPubkey P ∧
     (Desc.sh (.wsh (.sortedMulti k ks))).scriptPubkey P = (Desc.sh (.wsh (.sortedMulti k ks'))).scriptPubkey P := by
   simp only [Desc.scriptPubkey, wshScriptPubkey, wshInnerScript, shScriptPubkey, encodeBytes,
-    sortedmulti_perm_invariant P.env _ k ks ks' hp htie, and_self]
+    sortedmulti_perm_invariant P.env hf _ k ks ks' hp, and_self]
 
 /-- T2 in taproot: a `sortedmulti_a` leaf anywhere in the tree -/
-theorem sortedmulti_a_tr_spk_perm_invariant (P : Params) (ik : Key) (pre post : List (Nat × Ms))
-    (depth k : Nat) (ks ks' : List Key) (hp : ks.Perm ks')
-    (htie : ∀ x ∈ ks, ∀ y ∈ ks, P.env.sortKey x = P.env.sortKey y → P.env.ser x = P.env.ser y) :
+theorem sortedmulti_a_tr_spk_perm_invariant (P : Params) (hf : SortKeyFaithful P.env) (ik : Key)
+    (pre post : List (Nat × Ms)) (depth k : Nat) (ks ks' : List Key) (hp : ks.Perm ks') :
     (Desc.tr ik (pre ++ (depth, .sortedMultiA k ks) :: post)).scriptPubkey P =
     (Desc.tr ik (pre ++ (depth, .sortedMultiA k ks') :: post)).scriptPubkey P := by
   simp only [Desc.scriptPubkey, trScriptPubkey, trLeafScripts, List.map_append, List.map_cons,
-    encodeBytes, sortedmulti_a_perm_invariant P.env _ k ks ks' hp htie]
+    encodeBytes, sortedmulti_a_perm_invariant P.env hf _ k ks ks' hp]
 
 /-- T2, satisfier: signatures are chosen exactly as for `multi` over the SORTED key list, so
 they line up with the keys of the script -/
